@@ -87,6 +87,7 @@ type State struct {
 	recDone map[string]bool
 	guardSnaps map[int]*MapSnap // content of guarded maps right after the last lock acquisition
 	aliasOK map[int]bool // fresh objects handed to the current callee: its results may alias them
+	baseFrames int // pure evaluation: frames[:baseFrames] belong to the caller and are shared
 	evBase  int // event builtins see st.events[evBase:]
 	opaque  int // !=0: event builtins refer to the (invisible) trace of callee activation #opaque
 }
@@ -109,8 +110,13 @@ func (st *State) top() *Frame { return st.frames[len(st.frames)-1] }
 
 func (st *State) clone() *State {
 	n := &State{pure: st.pure, chanVer: st.chanVer, steps: st.steps, definable: st.definable, opaque: st.opaque, evBase: st.evBase}
+	n.baseFrames = st.baseFrames
 	n.frames = make([]*Frame, len(st.frames))
 	for i, f := range st.frames {
+		if i < st.baseFrames {
+			n.frames[i] = f // frames below a pure evaluation are never touched by it
+			continue
+		}
 		nf := *f
 		nf.env = make(map[ssa.Value]Value, len(f.env))
 		for k, v := range f.env {
